@@ -207,8 +207,11 @@ def server_cfg(c):
     if c['dh']:
         bits = {v[0] for v in c['dh'].values()}
         fb = {bool(v[1]) for v in c['dh'].values()}
-        common.require(len(bits) == 1 and len(fb) == 1, 'one modulus policy per server')
-        cfg['gex'] = {'style': 'openssh' if True in fb else 'roundup', 'moduli': sorted(bits)}
+        if len(bits) == 1 and len(fb) == 1:
+            cfg['gex'] = {'style': 'openssh' if True in fb else 'roundup', 'moduli': sorted(bits)}
+        else:
+            # a group size of its own for each group-exchange method (RFC 4419 leaves the choice to the server, request by request)
+            cfg['gex'] = {'per_alg': {shown(a): {'style': 'openssh' if v[1] else 'roundup', 'moduli': [v[0]]} for a, v in c['dh'].items()}}
     elif any(shown(n).startswith('diffie-hellman-group-exchange-') for n in c['kex']):
         # a server that advertises group exchange serves it: an unremarkable 4096-bit group (no size note is due for it)
         cfg['gex'] = {'style': 'roundup', 'moduli': [4096]}
